@@ -225,6 +225,11 @@ def run(ctx):
     for _ in range(300 if ctx.tier == "quick" else 3000):
         D = [bytes(rng.choice(b"abc/._") for _ in range(rng.randint(1, 6))) for _ in range(rng.randint(1, 4))]
         cases.append(("rej-nocolon", (), b" ".join(D) + b"\n", "err:expected ':' in depfile"))
+        # ... however the text ends (nothing, blanks, a tab, a continuation - LF or CRLF - as the very last bytes) and however the
+        # names are laid out (one line, one per continuation line, one per line)
+        sep = rng.choice((b" ", b"  ", b" \\\n ", b" \\\r\n  ", b"\t", b"\n"))
+        for end in (b"", b" ", b"\t", b"  \n", b" \\\n", b" \\\r\n", b"\\\n", b"\r\n", b"\n\n", b" \\\n\n", b"\n "):
+            cases.append(("rej-nocolon-end", (), sep.join(D) + end, "err:expected ':' in depfile"))
         d = D[0]
         cases.append(("rej-in-has-ins", (), b"out: " + b" ".join(D) + b"\n" + d + b": zz.h\n", "err:inputs may not also have inputs"))
         # the reappearing dependency anywhere among several targets of the later rule, other targets around it
@@ -238,7 +243,7 @@ def run(ctx):
         # accepted: the same names as targets of rules without dependencies (what -MP writes, also several per rule)
         DD = dedup(D)
         cases.append(("mp-multi", ("clang", "mp", False), b"out: " + b" ".join(D) + b"\n" + b" ".join(DD) + b":\n", ([b"out"], DD)))
-        nrej += 4
+        nrej += 15
 
     # several compiler runs appended to one file (or -MP output followed by more rules): phony rules for dependencies listed
     # so far - with or without blanks before the end of the line, blank lines, CRLF - and then a rule that brings new ones
